@@ -50,3 +50,11 @@ package external
 //@   trusted
 //@   modifies nothing
 //@   ensures result1 == nil ==> result0 < 18446744073709551615
+
+// A read-timestamp validator accepts or refuses a (timestamp, stale flag) pair; tsAccepted names its verdict (assumed
+// deterministic within one send; used by internal/locate to state that no read command skips the validation).
+//@ spec func tsAccepted(v ReadTSValidator, ts uint64, stale bool) bool
+//@ func (ReadTSValidator) ValidateReadTS
+//@   trusted
+//@   modifies nothing
+//@   ensures (result == nil) == tsAccepted(recv, readTS, isStaleRead)
